@@ -512,7 +512,10 @@ class Body:
             elif isinstance(e, dict) and "idx" in e:
                 t = ("index", t, self.term_of_local(e["idx"], depth))
             elif isinstance(e, dict) and "cidx" in e:
-                t = ("index", t, ("const", e["cidx"], "usize"))
+                if t[0] == "agg" and t[1] == "array" and e["cidx"] < len(t[4]):
+                    t = t[4][e["cidx"]]
+                else:
+                    t = ("index", t, ("const", e["cidx"], "usize"))
             elif isinstance(e, dict) and "dc" in e:
                 t = ("downcast", t, e["dc"], e["vi"])
             elif isinstance(e, dict) and "sub" in e:
